@@ -449,6 +449,56 @@ def roundtrip_scenario(lp, sid, r, fmt, ext=""):
     return "\n".join(lines) + "\n"
 
 
+def rename_lp(r):
+    """a small problem some of whose names are NOT valid in LP format (leading digit or '.', characters outside the alphabet) or clash
+    with the names the writer's repair generates (x<k>, x_<k>, x<k>_0, c<k>, ...): C08 'names needing repair or clashing with generated names'"""
+    for _ in range(50):
+        lp = lpfam.family(r.choice(["boxed", "fixedcols", "random", "feasible", "degenerate"]), r)
+        if usable_for_roundtrip(lp) and all(F(v) >= 0 for v in lp["range"]) and lp["n"] <= 12 and lp["m"] <= 10:
+            break
+    else:
+        lp = lpfam.feasible_bounded(r, 2, 3)
+        for j in range(lp["n"]):
+            lp["obj"][j] = F(j + 1)
+    keep = [i for i in range(lp["m"]) if any(v != 0 for _, v in lp["A"][i])]
+    for k in ("A", "sense", "rhs", "range", "rname"):
+        lp[k] = [lp[k][i] for i in keep]
+    lp["m"] = len(keep)
+
+    def names(n, pref, valid):
+        out = []
+        for k in range(n):
+            for _ in range(40):
+                q = r.random()
+                t = r.randrange(max(n, 3))
+                if q < .3:
+                    nm = "%s%d" % (valid, k)
+                elif q < .65:
+                    nm = r.choice(["%d", "%dx", ".%d", "a:%d", "x+%d", "[%d]", "x*%d", "x^%d", "a<%d", "%d.5", "0%d", "x=%d", "-%d", "a>%d"]) % t
+                else:
+                    nm = r.choice(["%s%d", "%s_%d", "%s%d_0", "%s%d_1", "%s_%d_0"]) % (pref, t)
+                if nm not in out and nm != "obj":
+                    out.append(nm)
+                    break
+            else:
+                out.append("%s%d" % (valid, k))
+        return out
+    lp["cname"] = names(lp["n"], "x", "v")
+    if r.random() < .5:
+        lp["rname"] = names(lp["m"], "c", "r")
+    return lp
+
+
+def rename_scenario(lp, sid, r):
+    f = "rn_%s.lp" % sid
+    lines = ["scenario %s" % sid, "handler on"] + lpfam.build_cmds(lp, "h0", r.choice(lpfam.BUILD_MODES)) + ["dump h0"]
+    lines += ["write_prob h0 %s LP" % f, "read_prob h1 %s LP" % f, "dump h1",
+              hist.raw(dict(call="rt_check", h="h0", h2="h1", fmt="LP", rename="obj", props=["C08"])),
+              "exact h0 primal - 1", "exact h1 dual - 1", hist.raw(dict(call="eq_answer", h="h0", h2="h1", props=["C08"])),
+              "free h0", "free h1"]
+    return "\n".join(lines) + "\n"
+
+
 def chain_scenario(lp, sid, r):
     """LP -> MPS -> LP and MPS -> LP -> MPS chains: each hop must preserve the problem (C09)"""
     a, b, c = "ch_%s_1.lp" % sid, "ch_%s_2.mps" % sid, "ch_%s_3.lp" % sid
